@@ -884,35 +884,159 @@ def rule_basis_restored(ctx: Ctx) -> None:
         if len(meas) != 1:
             continue
         q = func_params(fn)[1]
-        before, after = [], []
-        for c in sorted(calls_in(fn), key=lambda c: (c.lineno, c.col_offset)):
-            nm = call_attr(c) or getattr(c.func, "id", "")
-            if c is meas[0] or nm == "z_measurement_gate" or len(c.args) != 2 or norm(c.args[1]) != q:
-                continue
-            try:
-                kind, u = gatesum.summarise(repo, nm)
-            except Exception:
-                continue
-            if kind != "1":
-                continue
-            (before if (c.lineno, c.col_offset) < (meas[0].lineno, meas[0].col_offset) else after).append((nm, u))
+
+        def gates_of(st):
+            out = []
+            for c in sorted([x for x in ast.walk(st) if isinstance(x, ast.Call)], key=lambda c: (c.lineno, c.col_offset)):
+                nm = call_attr(c) or getattr(c.func, "id", "")
+                if nm == "z_measurement_gate":
+                    out.append(("MEAS", None, None))
+                    continue
+                if len(c.args) != 2 or norm(c.args[1]) != q:
+                    continue
+                try:
+                    kind, u = gatesum.summarise(repo, nm)
+                except Exception:
+                    continue
+                if kind == "1":
+                    out.append((nm, u, None))
+            return out
+
+        def paths(stmts):
+            """every path through the if-structure: list of (token sequence, conditions taken)"""
+            acc = [([], [])]
+            for st in stmts:
+                if isinstance(st, ast.If):
+                    arms = [(paths(st.body), norm(st.test)), (paths(st.orelse), f"not ({norm(st.test)})")]
+                    head = gates_of(st.test)
+                    nxt = []
+                    for seq, cond in acc:
+                        for sub, label in arms:
+                            for s2, c2 in sub:
+                                nxt.append((seq + head + s2, cond + [label] + c2))
+                    acc = nxt
+                elif isinstance(st, (ast.For, ast.While, ast.Try, ast.With)):
+                    if gates_of(st):
+                        raise AnalysisError(f"{fn.name}: gates on the measured qubit inside a loop / try block")
+                elif isinstance(st, ast.Return):
+                    acc = [(seq + gates_of(st) + [("RET", None, None)], cond) for seq, cond in acc]
+                else:
+                    g = gates_of(st)
+                    acc = [(seq + g if not (seq and seq[-1][0] == "RET") else seq, cond) for seq, cond in acc]
+            return acc
         n += 1
         ctx.touch(m, fn)
-        if not before:
-            ctx.ok("measure.basis-restored", m, meas[0], what=f"{fn.name}: no basis change")
-            continue
-        tot = cl.I2
-        for nm, u in before + after:
-            tot = cl.mm(u, tot)
-        if cl.key(tot) == cl.key(cl.I2):
-            ctx.ok("measure.basis-restored", m, meas[0], what=f"{fn.name}: {[b for b, _ in before]} undone by {[a for a, _ in after]}")
+        bad = None
+        summary = None
+        for seq, cond in paths(fn.body):
+            names = [t[0] for t in seq]
+            if "MEAS" not in names:
+                continue
+            k = names.index("MEAS")
+            before = [t for t in seq[:k] if t[1] is not None]
+            after = [t for t in seq[k + 1:] if t[1] is not None]
+            if not before:
+                summary = summary or f"{fn.name}: no basis change"
+                continue
+            tot = cl.I2
+            for nm, u, _ in before + after:
+                tot = cl.mm(u, tot)
+            if cl.key(tot) == cl.key(cl.I2):
+                summary = f"{fn.name}: {[b[0] for b in before]} undone by {[a[0] for a in after]}"
+            else:
+                bad = (before, after, cond)
+                break
+        if bad is None:
+            ctx.ok("measure.basis-restored", m, meas[0], what=summary or f"{fn.name}: no basis change")
         else:
+            before, after, cond = bad
             ctx.fail("measure.basis-restored", m, meas[0],
-                     f"{fn.name} rotates qubit `{q}` with {[b for b, _ in before]} before the Z measurement and applies {[a for a, _ in after] or 'nothing'} after it: "
-                     f"the caller's tableau is left in the rotated frame (measuring |+> in the X basis leaves the qubit in |0>, not |+>)",
+                     f"{fn.name} rotates qubit `{q}` with {[b[0] for b in before]} before the Z measurement and applies {[a[0] for a in after] or 'nothing'} after it"
+                     + (f" on the path where {' and '.join(cond)}" if cond else "") +
+                     f": the caller's tableau is left in the rotated frame (measuring |+> in the X basis leaves the qubit in |0>, not |+>)",
                      func=fn.name, construct=f"{fn.name}: basis change not undone")
     if n == 0:
         raise AnalysisError("measure.basis-restored: no measure_* function found")
+
+
+# --------------------------------------------------------------------------- reset.basis
+
+
+def rule_reset_basis(ctx: Ctx) -> None:
+    """reset.basis: reset_x / reset_y reset the qubit to |s> with reset_z(tableau, q, intended_state) and then rotate it: for either value
+    s of intended_state the gates applied afterwards form a Clifford U with U Z U^dagger = +X (reset_x) resp. +Y (reset_y), so that |0> -> |+>,
+    |1> -> |-> (resp. |+i>, |-i>).  Tests on intended_state are evaluated for s = 0 and s = 1."""
+    from .. import clifford as cl
+    from . import gatesum
+    repo = ctx.repo
+    m = repo.module(CLIFF)
+    for name, axis in (("reset_x", "+X"), ("reset_y", "+Y")):
+        fn = repo.anchor(CLIFF, name)
+        ctx.touch(m, fn)
+        ps = func_params(fn)
+        q, sp = ps[1], ps[2]
+        rz = [c for c in calls_in(fn) if (call_attr(c) or getattr(c.func, "id", "")) == "reset_z"]
+        if len(rz) != 1:
+            raise AnalysisError(f"{name}: exactly one reset_z call expected")
+        a3 = rz[0].args[2] if len(rz[0].args) > 2 else next((k.value for k in rz[0].keywords if k.arg == "intended_state"), None)
+        if a3 is None or norm(a3) != sp:
+            ctx.fail("reset.basis", m, rz[0], f"{name} resets the qubit with `{short(rz[0], 70)}`: the computational state must be the requested `{sp}`",
+                     func=name, construct=f"{name}: reset_z not called with {sp}")
+            continue
+
+        def truth(t, sv):
+            if isinstance(t, ast.Compare) and len(t.ops) == 1 and isinstance(t.ops[0], (ast.Eq, ast.NotEq, ast.Is, ast.IsNot)):
+                l_, r_ = t.left, t.comparators[0]
+                if isinstance(l_, ast.Constant):
+                    l_, r_ = r_, l_
+                if norm(l_) == sp and isinstance(r_, ast.Constant):
+                    eq = (sv == r_.value)
+                    return eq if isinstance(t.ops[0], (ast.Eq, ast.Is)) else not eq
+            if isinstance(t, ast.Name) and t.id == sp:
+                return bool(sv)
+            if isinstance(t, ast.UnaryOp) and isinstance(t.op, ast.Not):
+                return not truth(t.operand, sv)
+            raise AnalysisError(f"{name}: test `{short(t)}` after the reset is not a test of `{sp}`")
+
+        def run(stmts, sv, acc, started):
+            for st in stmts:
+                if isinstance(st, ast.If):
+                    started = run(st.body if truth(st.test, sv) else st.orelse, sv, acc, started)
+                    continue
+                if isinstance(st, (ast.For, ast.While, ast.Try, ast.With)):
+                    raise AnalysisError(f"{name}: loop / try block after the reset")
+                for c in sorted([x for x in ast.walk(st) if isinstance(x, ast.Call)], key=lambda c: (c.lineno, c.col_offset)):
+                    nm = call_attr(c) or getattr(c.func, "id", "")
+                    if c is rz[0]:
+                        started = True
+                        continue
+                    if not started or len(c.args) != 2 or norm(c.args[1]) != q:
+                        continue
+                    try:
+                        kind, u = gatesum.summarise(repo, nm)
+                    except Exception:
+                        continue
+                    if kind == "1":
+                        acc.append((nm, u))
+            return started
+        bad = None
+        for sv in (0, 1):
+            acc = []
+            run(fn.body, sv, acc, False)
+            tot = cl.I2
+            for nm, u in acc:
+                tot = cl.mm(u, tot)
+            img = cl.key(tot)[1]
+            if img != axis:
+                bad = (sv, [a for a, _ in acc], img)
+                break
+        if bad:
+            sv, gs, img = bad
+            ctx.fail("reset.basis", m, rz[0], f"{name} with {sp} = {sv} applies {gs or 'nothing'} after reset_z: that maps Z to {img}, so |{sv}> becomes the "
+                     f"{'-' if (img[0] == '-') != (sv == 1) else '+'}1 eigenstate of {img[1]} instead of the {'-' if sv else '+'}1 eigenstate of {axis[1]}",
+                     func=name, construct=f"{name}: rotation after reset_z maps Z to {img}")
+        else:
+            ctx.ok("reset.basis", m, rz[0], what=f"{name}: Z -> {axis} for both requested states")
 
 
 # --------------------------------------------------------------------------- dim.symplectic-form
